@@ -1,14 +1,31 @@
 """Translator: odl/discr/grid.py::uniform_grid_fromintv (node placement table)
            ->  OdlModel/Gen/UniformGrid.lean
 
-Grammar (anything else raises ExtractionError = broken obligation, never a pass):
-  * the `if/elif/else` chain over `bdry_l`, `bdry_r` (conjunctions of the names or their
-    negations; `else` = the remaining combination), each branch being exactly
-    `gmin.append(E); gmax.append(E)` with
-        E ::= xmin | xmax | (xmin|xmax) (+|-) (xmax - xmin) / D,   D linear in n with integer coefficients
+The table has, per (bdry_l, bdry_r), one entry for gmin and one for gmax of the form
+    base + sign * (xmax - xmin) / (a * n + b),   base in {xmin, xmax}, sign in {0, +1, -1}, a, b integers.
+
+1. source=ast.  The statements of the per-axis loop from the first `if` over `bdry_l` / `bdry_r` on are
+   partially evaluated for each of the four flag assignments: `if` / conditional-expression tests must
+   be boolean combinations of the two names, assignments to temporaries are substituted, and what is
+   appended to `gmin` / `gmax` must reduce to
+        E ::= xmin | xmax | (xmin|xmax) (+|-) (xmax - xmin) / D,   D linear in n with integer coefficients.
+   This covers the 4-way chain as well as a shared half-stride temporary with per-side conditional
+   expressions.  Anything else is not understood.
+2. source=live.  If the AST is not understood, the table is obtained BEHAVIOURALLY from the live
+   `uniform_grid_fromintv` of the tree under test (subprocess with that tree on PYTHONPATH): the entry of
+   the above form is fitted from a handful of exactly representable inputs and then verified EXACTLY on a
+   larger grid of dyadic inputs (n = 1, 2, 3, …, 4097; negative, mixed-sign and far-off intervals).
+   A function that is not of the table's form, or disagrees anywhere on the verification grid, is
+   rejected.
+Failing both raises ExtractionError = broken obligation, never a pass.  The Lean theorem
+`C14.extracted_table_is_model` then compares the table with the model for all inputs.
 """
 import ast
+import copy
+import json
 import os
+import subprocess
+from fractions import Fraction
 
 from vf import core
 
@@ -68,73 +85,220 @@ def _offset(node):
     raise ExtractionError('node placement outside the grammar: ' + ast.unparse(node))
 
 
-def _flag_test(node):
-    """test -> (bl, br) required"""
-    if not (isinstance(node, ast.BoolOp) and isinstance(node.op, ast.And) and len(node.values) == 2):
-        raise ExtractionError('flag test outside the grammar: ' + ast.unparse(node))
-    req = {}
-    for v in node.values:
-        val = True
-        if isinstance(v, ast.UnaryOp) and isinstance(v.op, ast.Not):
-            v, val = v.operand, False
-        if not (isinstance(v, ast.Name) and v.id in ('bdry_l', 'bdry_r')) or v.id in req:
-            raise ExtractionError('flag test outside the grammar: ' + ast.unparse(node))
-        req[v.id] = val
-    return (req['bdry_l'], req['bdry_r'])
+def _bool(node, flags):
+    """Concrete value of a test over bdry_l / bdry_r."""
+    if isinstance(node, ast.Name) and node.id in flags:
+        return flags[node.id]
+    if isinstance(node, ast.UnaryOp) and isinstance(node.op, ast.Not):
+        return not _bool(node.operand, flags)
+    if isinstance(node, ast.BoolOp):
+        vals = [_bool(v, flags) for v in node.values]
+        return all(vals) if isinstance(node.op, ast.And) else any(vals)
+    raise ExtractionError('test outside the grammar: ' + ast.unparse(node))
 
 
-def _branch(body):
-    if len(body) != 2:
-        raise ExtractionError('branch body is not gmin.append; gmax.append')
-    out = {}
-    for st in body:
-        if not (isinstance(st, ast.Expr) and isinstance(st.value, ast.Call) and
-                isinstance(st.value.func, ast.Attribute) and st.value.func.attr == 'append' and
-                isinstance(st.value.func.value, ast.Name) and st.value.func.value.id in ('gmin', 'gmax')
-                and len(st.value.args) == 1):
-            raise ExtractionError('branch statement outside the grammar: ' + ast.unparse(st))
-        out[st.value.func.value.id] = _offset(st.value.args[0])
-    if set(out) != {'gmin', 'gmax'}:
-        raise ExtractionError('branch does not set both gmin and gmax')
-    return out
+class _Subst(ast.NodeTransformer):
+    def __init__(self, env, flags):
+        self.env, self.flags = env, flags
+
+    def visit_Name(self, node):
+        if node.id in self.env:
+            val = self.env[node.id]
+            if val is None:
+                raise ExtractionError('temporary {} used although it has no value on this path'.format(node.id))
+            return copy.deepcopy(val)
+        return node
+
+    def visit_IfExp(self, node):
+        return self.visit(node.body if _bool(node.test, self.flags) else node.orelse)
 
 
-def extract_table(repo):
+def _run(stmts, flags, env, out):
+    for st in stmts:
+        if isinstance(st, ast.If):
+            _run(st.body if _bool(st.test, flags) else st.orelse, flags, env, out)
+        elif isinstance(st, ast.Assign) and len(st.targets) == 1 and isinstance(st.targets[0], ast.Name) \
+                and st.targets[0].id not in ('xmin', 'xmax', 'n', 'bdry_l', 'bdry_r', 'gmin', 'gmax'):
+            if isinstance(st.value, ast.Constant) and st.value.value is None:
+                env[st.targets[0].id] = None
+            else:
+                env[st.targets[0].id] = _Subst(env, flags).visit(copy.deepcopy(st.value))
+        elif (isinstance(st, ast.Expr) and isinstance(st.value, ast.Call) and
+              isinstance(st.value.func, ast.Attribute) and st.value.func.attr == 'append' and
+              isinstance(st.value.func.value, ast.Name) and st.value.func.value.id in ('gmin', 'gmax')
+              and len(st.value.args) == 1 and not st.value.keywords):
+            which = st.value.func.value.id
+            if which in out:
+                raise ExtractionError(which + ' appended twice')
+            out[which] = _offset(_Subst(env, flags).visit(copy.deepcopy(st.value.args[0])))
+        else:
+            raise ExtractionError('statement outside the grammar: ' + ast.unparse(st)[:80])
+
+
+def extract_table_ast(repo):
     with open(os.path.join(repo, 'odl', 'discr', 'grid.py')) as f:
         tree = ast.parse(f.read())
     fn = _func(tree, 'uniform_grid_fromintv')
-    chain = None
+    loop = None
     for node in ast.walk(fn):
-        if isinstance(node, ast.For):
-            for st in node.body:
-                if isinstance(st, ast.If) and 'bdry_l' in ast.unparse(st.test):
-                    chain = st
-    if chain is None:
+        if isinstance(node, ast.For) and any(
+                isinstance(st, ast.If) and 'bdry_l' in ast.unparse(st.test) for st in node.body):
+            loop = node
+    if loop is None:
         raise ExtractionError('flag chain not found in uniform_grid_fromintv')
+    start = [k for k, st in enumerate(loop.body)
+             if isinstance(st, ast.If) and 'bdry_l' in ast.unparse(st.test)][0]
     table = {}
-    node = chain
-    while True:
-        key = _flag_test(node.test)
-        if key in table:
-            raise ExtractionError('duplicate flag combination')
-        table[key] = _branch(node.body)
-        if len(node.orelse) == 1 and isinstance(node.orelse[0], ast.If):
-            node = node.orelse[0]
-            continue
-        rest = [(a, b) for a in (True, False) for b in (True, False) if (a, b) not in table]
-        if len(rest) != 1 or not node.orelse:
-            raise ExtractionError('else branch does not cover exactly one combination')
-        table[rest[0]] = _branch(node.orelse)
-        break
+    for bl in (True, False):
+        for br in (True, False):
+            out = {}
+            _run(loop.body[start:], {'bdry_l': bl, 'bdry_r': br}, {}, out)
+            if set(out) != {'gmin', 'gmax'}:
+                raise ExtractionError('gmin / gmax not both set for flags {}'.format((bl, br)))
+            table[(bl, br)] = out
     return table
+
+
+# ---------------------------------------------------------------------------
+# behavioural fallback
+
+_LIVE = r"""
+import json, sys
+from fractions import Fraction
+import odl
+qs = json.load(sys.stdin)
+out = []
+for xmin, xmax, n, bl, br in qs:
+    try:
+        g = odl.uniform_grid_fromintv(odl.IntervalProd(float(Fraction(xmin)), float(Fraction(xmax))), n,
+                                      nodes_on_bdry=[(bool(bl), bool(br))])
+        v = g.coord_vectors[0]
+        out.append([str(Fraction(float(x))) for x in v.tolist()] if len(v) == n else None)
+    except Exception as e:
+        out.append(None)
+json.dump(out, sys.stdout)
+"""
+
+
+def _live(repo, queries):
+    env = dict(os.environ, PYTHONPATH=repo, PYTHONDONTWRITEBYTECODE='1')
+    p = subprocess.run(['/venv/bin/python', '-c', _LIVE], input=json.dumps(
+        [[str(a), str(b), n, bl, br] for a, b, n, bl, br in queries]), env=env, cwd='/tmp',
+        stdout=subprocess.PIPE, stderr=subprocess.PIPE, text=True, timeout=600)
+    if p.returncode != 0:
+        raise ExtractionError('live uniform_grid_fromintv could not be run: ' + p.stderr[-200:])
+    res = json.loads(p.stdout)
+    return [None if r is None else [Fraction(x) for x in r] for r in res]
+
+
+def _eval_entry(entry, xmin, xmax, n):
+    bm, sg, a, b = entry
+    base = xmax if bm else xmin
+    return base if sg == 0 else base + sg * (xmax - xmin) / (a * n + b)
+
+
+def _fit(obs, prefer_max):
+    """obs: list of (xmin, xmax, n, value) with n >= 2.  Returns the table entry or raises."""
+    for bm in ((True, False) if prefer_max else (False, True)):
+        offs = [(v - (xmax if bm else xmin), xmax - xmin, n) for xmin, xmax, n, v in obs]
+        if all(o == 0 for o, _, _ in offs):
+            return (bm, 0, 0, 1)
+        if any(o == 0 for o, _, _ in offs):
+            continue
+        rs = {}
+        ok = True
+        for o, ext, n in offs:
+            r = ext / o
+            if r.denominator != 1 or rs.setdefault(n, r) != r:
+                ok = False
+                break
+        ns = sorted(rs)
+        if not ok or len(ns) < 3:
+            continue
+        A = (rs[ns[1]] - rs[ns[0]]) / (ns[1] - ns[0])
+        B = rs[ns[0]] - A * ns[0]
+        if A.denominator != 1 or B.denominator != 1 or any(rs[n] != A * n + B for n in ns):
+            continue
+        sg = 1 if (A > 0 or (A == 0 and B > 0)) else -1
+        return (bm, sg, int(sg * A), int(sg * B))
+    raise ExtractionError('live node placement is not of the form base + sign*(xmax - xmin)/(a*n + b)')
+
+
+def extract_table_live(repo):
+    """Fit on few points, verify exactly on many.  Returns (table, n_fit, n_verify)."""
+    # extents divisible by every candidate denominator up to 16: all divisions on the path are exact
+    L = 720720
+    fit_pts = [(Fraction(x), Fraction(x) + Fraction(L * m, 1024), n)
+               for x, m in ((0, 1), (-3, 2), (Fraction(5, 4), 1)) for n in (2, 3, 4, 5, 7)]
+    table = {}
+    pairs = [(bl, br) for bl in (True, False) for br in (True, False)]
+    res_all = _live(repo, [(a, b, n, bl, br) for bl, br in pairs for a, b, n in fit_pts])
+    n_fit = len(res_all)
+    for k, (bl, br) in enumerate(pairs):
+        res = res_all[k * len(fit_pts):(k + 1) * len(fit_pts)]
+        if any(r is None for r in res):
+            raise ExtractionError('live uniform_grid_fromintv raised on a fit point')
+        table[(bl, br)] = {
+            'gmin': _fit([(a, b, n, r[0]) for (a, b, n), r in zip(fit_pts, res)], False),
+            'gmax': _fit([(a, b, n, r[-1]) for (a, b, n), r in zip(fit_pts, res)], True)}
+    # verification grid: extents = (product of the fitted denominators) * dyadic side, so exact again
+    import math
+    qs = []
+    for (bl, br), ent in table.items():
+        for n in (1, 2, 3, 4, 5, 6, 8, 9, 16, 17, 31, 64, 100, 1000, 4097):
+            d = 1
+            for e in ent.values():
+                if e[1] != 0:
+                    den = abs(e[2] * n + e[3])
+                    if den == 0:
+                        raise ExtractionError('fitted denominator vanishes at n={}'.format(n))
+                    d = d * den // math.gcd(d, den)
+            for x in (Fraction(0), Fraction(-7, 2), Fraction(3, 8), Fraction(-1024), Fraction(4096), Fraction(-1, 64)):
+                for h in (Fraction(1), Fraction(1, 8), Fraction(3, 4), Fraction(1, 1024)):
+                    qs.append((x, x + d * h, n, bl, br))
+    res = _live(repo, qs)
+    n_ver = len(qs)
+    if True:
+        for (xmin, xmax, n, bl, br), r in zip(qs, res):
+            ent = table[(bl, br)]
+            if r is None:
+                raise ExtractionError('live uniform_grid_fromintv raised on [{}, {}], n={}, flags {}'.format(
+                    xmin, xmax, n, (bl, br)))
+            gmin = _eval_entry(ent['gmin'], xmin, xmax, n)
+            gmax = _eval_entry(ent['gmax'], xmin, xmax, n)
+            exp = [gmin] if n == 1 else [gmin + i * (gmax - gmin) / (n - 1) for i in (0, n - 1)]
+            got = [r[0]] if n == 1 else [r[0], r[-1]]
+            if got != exp:
+                raise ExtractionError('fitted table disagrees with the live function on [{}, {}], n={}, flags {}: '
+                                      '{} vs {}'.format(xmin, xmax, n, (bl, br), got, exp))
+            if n >= 3:
+                # interior nodes equally spaced (np.linspace), checked where exactly representable
+                step = (gmax - gmin) / (n - 1)
+                if step.denominator & (step.denominator - 1) == 0 and r[1] != gmin + step:
+                    raise ExtractionError('interior nodes are not equally spaced on [{}, {}], n={}'.format(
+                        xmin, xmax, n))
+    return table, n_fit, n_ver
+
+
+def extract_table(repo):
+    """(table, description of its source)"""
+    try:
+        return extract_table_ast(repo), 'source=ast'
+    except ExtractionError as e:
+        why = str(e)
+    table, n_fit, n_ver = extract_table_live(repo)
+    return table, ('source=live (AST not understood: {}); fitted on {} and verified exactly on {} calls of the '
+                   'live uniform_grid_fromintv'.format(why[:80], n_fit, n_ver))
 
 
 def _b(x):
     return 'true' if x else 'false'
 
 
-def extract(repo=core.REPO):
-    table = extract_table(repo)
+def extract(repo=core.REPO, info=None):
+    table, src = extract_table(repo)
+    if info is not None:
+        info.append(src)
     lines = ['/- GENERATED by tools/extract/uniform_grid.py from odl/discr/grid.py::uniform_grid_fromintv',
              '   -- do not edit. -/',
              'import OdlModel.Model.Partition',
@@ -151,8 +315,8 @@ def extract(repo=core.REPO):
     return '\n'.join(lines)
 
 
-def regenerate(repo=core.REPO):
-    lean = extract(repo)
+def regenerate(repo=core.REPO, info=None):
+    lean = extract(repo, info)
     return core.write_if_changed(os.path.join(core.LEAN, 'OdlModel', 'Gen', 'UniformGrid.lean'), lean)
 
 
